@@ -172,6 +172,19 @@ def body_special(ctx: H.BaseCtx):
                     # formed and the sparse product is legitimately 0 there)
                 except Exception as e:
                     ctx.unexpected_exception(e, "det (special values)")
+        if k == 0:
+            # functions that are linear in the coefficients: term by term they are numpy's function on the coefficient array
+            for label, p in SP.zoo((2, 3)):
+                for fname, nf in (("sum", lambda c: numpy.sum(c, axis=0)), ("sum_all", lambda c: numpy.sum(c)), ("mean", lambda c: numpy.mean(c, axis=1)), ("mean_all", lambda c: numpy.mean(c)),
+                                  ("cumsum", lambda c: numpy.cumsum(c, axis=1)), ("diff", lambda c: numpy.diff(c, axis=1)), ("mean_method", lambda c: numpy.mean(c, axis=0))):
+                    src = SP.zoo((2, 3), only=label)[0][1]
+                    try:
+                        got = {"sum": lambda: numpoly.sum(src, axis=0), "sum_all": lambda: numpoly.sum(src), "mean": lambda: numpoly.mean(src, axis=1), "mean_all": lambda: numpy.mean(src),
+                               "cumsum": lambda: numpoly.cumsum(src, axis=1), "diff": lambda: numpoly.diff(src, axis=1), "mean_method": lambda: src.mean(axis=0)}[fname]()
+                    except Exception as e:
+                        ctx.unexpected_exception(e, "%s on %s" % (fname, label))
+                        continue
+                    SP.termwise(ctx, got, nf, p, "%s of an array with %s coefficients" % (fname, label))
         v = numpy.array([2.0, vals, 0.0, -1.0, 0.5])
         for fn, ref in (("sum", numpy.add.reduce(v)), ("prod", numpy.multiply.reduce(v)), ("cumsum", numpy.add.accumulate(v))):
             try:
